@@ -866,6 +866,20 @@ Theorem c11_compiled_fill_symbol : forall p fuel rf st mbase instr,
 Proof. exact SrcTie.src_symbolize. Qed.
 Print Assumptions c11_compiled_fill_symbol.
 
+(* the parse side: building the table with the compiled finish_item arm (Driver.table_of_src, the table the
+   correspondence run prints) is build_symtab, for every well-formed file and both profiles: no trap in the compiled
+   closure's `size - 1`, no failing Range::new *)
+Theorem c11_compiled_build_symtab : forall p rf, wf_file rf -> Driver.table_of_src p rf = build_symtab rf.
+Proof. exact SrcTie.src_build_symtab. Qed.
+Print Assumptions c11_compiled_build_symtab.
+
+Example c11_nonvacuous_compiled_table :
+  wf_file nv_file /\ (exists st, Driver.table_of_src Debug nv_file = Ret st /\ length (st_funcs st) = 1%nat) /\
+  Driver.table_of_src Release nv_file2 = build_symtab nv_file2.
+Proof.
+  split; [exact c11_nonvacuous_wf|]. split; [eexists; split; vm_compute; reflexivity|vm_compute; reflexivity].
+Qed.
+
 Theorem c11_compiled_driver_fuel : forall st, SrcTie.fuel_covers st (Prims.src_fuel st).
 Proof. exact SrcTie.src_fuel_covers. Qed.
 Print Assumptions c11_compiled_driver_fuel.
